@@ -395,7 +395,7 @@ impl W {
     /// reference-counted and aggregate types: every call copies (clones) from storage that all
     /// threads share
     fn constants_hammer(&mut self, case: &Case, render: bool) -> Outcome {
-        const SRC: &str = "record Conf {\n    name: String,\n    n: u64,\n    tags: List[String],\n}\nconst GREETING: String = \"hello, \";\nconst NAMES: List[String] = [\"a\", \"bb\", \"ccc\"];\nconst CONF: Conf = Conf { name: \"conf\", n: 7, tags: [\"x\", \"y\"] };\nfn f(name: String) -> String {\n    GREETING + name\n}\nfn g(i: u64) -> String {\n    match NAMES.get(i) {\n        Some(s) => s,\n        None => \"none\",\n    }\n}\nfn h(x: u64) -> u64 {\n    let c = CONF;\n    let d = c;\n    if d.name == \"conf\" && d.tags == [\"x\", \"y\"] { d.n + x } else { 0 }\n}\n";
+        const SRC: &str = "record Conf {\n    name: String,\n    n: u64,\n    tags: List[String],\n}\nconst GREETING: String = \"hello, \";\nconst NAMES: List[String] = [\"a\", \"bb\", \"ccc\"];\nconst CONF: Conf = Conf { name: \"conf\", n: 7, tags: [\"x\", \"y\"] };\nrecord Stats {\n    sum: u64,\n    count: u64,\n    low: u8,\n}\nconst EMPTY: Stats = Stats { sum: 0, count: 0, low: 3 };\nfn m(x: u64) -> u64 {\n    let s = EMPTY;\n    s.sum = s.sum + x;\n    s.count = s.count + 1;\n    s.sum * 1000 + s.count * 10 + EMPTY.count\n}\nfn f(name: String) -> String {\n    GREETING + name\n}\nfn g(i: u64) -> String {\n    match NAMES.get(i) {\n        Some(s) => s,\n        None => \"none\",\n    }\n}\nfn h(x: u64) -> u64 {\n    let c = CONF;\n    let d = c;\n    if d.name == \"conf\" && d.tags == [\"x\", \"y\"] { d.n + x } else { 0 }\n}\n";
         let empty: Vec<u8> = Vec::new();
         let ctl = case.get(2).unwrap_or(&empty);
         let mut c = Choices::new(ctl.get(1..).unwrap_or(&[]));
@@ -408,14 +408,23 @@ impl W {
         let f = pkg.get_function::<fn(roto::RotoString) -> roto::RotoString>("f").expect("f");
         let g = pkg.get_function::<fn(u64) -> roto::RotoString>("g").expect("g");
         let h = pkg.get_function::<fn(u64) -> u64>("h").expect("h");
+        let m = pkg.get_function::<fn(u64) -> u64>("m").expect("m");
         let barrier = Arc::new(Barrier::new(n_threads));
         let mut hs = Vec::new();
         for t in 0..n_threads {
-            let (f, g, h, barrier) = (f.clone(), g.clone(), h.clone(), barrier.clone());
+            let (f, g, h, m, barrier) = (f.clone(), g.clone(), h.clone(), m.clone(), barrier.clone());
             hs.push(std::thread::spawn(move || -> Result<(), String> {
                 barrier.wait();
                 for i in 0..calls {
-                    match i % 3 {
+                    match i % 4 {
+                        3 => {
+                            // a copy of a plain-data constant is modified: the constant must not change
+                            let x = (i % 1000) as u64;
+                            let got = m.call(x);
+                            if got != x * 1000 + 10 {
+                                return Err(format!("thread {t}, call {i}: m({x}) returned {got}, expected {}", x * 1000 + 10));
+                            }
+                        }
                         0 => {
                             let name = format!("t{t}-{i}");
                             let got = f.call(roto::RotoString::from(name.as_str())).to_string();
@@ -424,7 +433,7 @@ impl W {
                             }
                         }
                         1 => {
-                            let k = (i / 3) as u64 % 4;
+                            let k = (i / 4) as u64 % 4;
                             let got = g.call(k).to_string();
                             let want = ["a", "bb", "ccc", "none"][k as usize];
                             if got != want {
